@@ -136,4 +136,17 @@ PROPS = {
         "components": {"real": REAL + ["core.OutboundBreaker, core.Throttle"], "stub": STUB_COMMON},
         "assumptions": ["an overwrite at capacity may be admitted or refused (not judged)", "expired but not yet purged items may count towards the limit (not judged)"],
     },
+    "C03": {
+        "level": "exploration",
+        "build": "plain",
+        "tiers": tiers(3000, 45, 100000, 900),
+        "rule": "a location with 0-8 facts (optionally 1-2 parents holding some of them) reached through a generated history (overwrites, removals, a reload); "
+                "then 10 generated query trees per world: depth <= 4, and/or arity 0-3, not, pattern with shared and fresh variables, shortCircuit on/off/absent, "
+                "code terms from a closed template family (literals true/false/null/0/1/''/'s', var == literal, var, object results adding a binding). "
+                "Location.Query, and the same tree used as the condition of a rule inside ProcessEvent, are compared as multisets of bindings with the "
+                "compositional semantics evaluated over the reference model. Non-trivial: the query yields at least one binding; distinct = distinct "
+                "(query text, canonical model state) pairs. The only simulator dimensions used are parents, reload and history; no fault or schedule applies.",
+        "components": {"real": REAL + ["otto JavaScript for code terms"], "stub": STUB_COMMON},
+        "assumptions": ["core.Matches is the matching primitive", "code terms use variables bound on every path to them"],
+    },
 }
